@@ -63,6 +63,8 @@ def replay(ctx, rec, found):
 def _worker(rec):
     found = {}
     replay(None, rec, found)
+    if found:
+        found = rl.plain(found)      # observed objects (namedtuples, Decimals, histograms) -> JSON-safe text
     return found, (rl.case_hash([rec["kind"], rec["h"]]), any(o["op"] == "f" for o in rec["h"]))
 
 
